@@ -10,7 +10,7 @@ from harness import core
 from harness.core import Outcome
 
 ID = "C20"
-LEAN_TARGETS = ["BeyondVerif.Props.C20", "BeyondVerif.Props.C20Forest", "BeyondVerif.Props.C20Registry", "BeyondVerif.Witness.C20"]
+LEAN_TARGETS = ["BeyondVerif.Props.C20", "BeyondVerif.Props.C20Forest", "BeyondVerif.Props.C20Registry", "BeyondVerif.Props.C20Named", "BeyondVerif.Witness.C20"]
 THEOREMS = [
     "BeyondVerif.C20.path_valid_chain",
     "BeyondVerif.C20.nbrs_iff_linked",
@@ -741,7 +741,7 @@ def check_registry_scenarios(out, ctx, rng, big):
     from harness import c20_registry as R
     scen = [(nm, ops, "registry-fixed") for nm, ops in R.fixed_scenarios()]
     scen.append(R.topo_direct_scenario() + ("registry-known",))
-    for i in range(60 if big else 8):
+    for i in range(60 if ctx.thorough else (20 if big else 8)):
         scen.append((f"random{i}", R.random_scenario(rng, rng.randint(4, 12 if big else 9)), "registry-random"))
     tot = {}
     for nm, ops, kind in scen:
@@ -761,6 +761,19 @@ def check_registry_scenarios(out, ctx, rng, big):
             out.fail(f["family"], f["what"], {"registry_scenario": ops, "name": nm, "detail": f["detail"]}, observed=f["detail"])
     out.notes.append("real-registry scenarios: " + ", ".join(f"{k}={v}" for k, v in sorted(tot.items())))
     out.sample({"registry_scenario": scen[0][1][:3], "checked": "bounded route sweep by identity, link-method resolvability from every start object, all pairs convert, unchanged by new names"})
+
+
+def _registry_families(seed, rounds_a, rounds_b):
+    import random
+    import warnings
+    import logging
+    warnings.filterwarnings("ignore")
+    logging.disable(logging.CRITICAL)
+    rng = random.Random(seed)
+    out = Outcome()
+    check_frame_registry(out, rng, rounds_a)
+    check_nested_and_body_frames(out, rng, rounds_b)
+    return {"failures": out.failures, "cases": out.cases, "dist": out.dist, "keys": [repr(k) for k in out.keys]}
 
 
 def oracle(ctx, widened):
@@ -800,8 +813,17 @@ def oracle(ctx, widened):
     for names, h, kind in named_cases(ctx, rng, 3000 if big else 300, 3000):
         check_named_history(out, names, h, kind)
     check_registry_scenarios(out, ctx, rng, big)
-    check_frame_registry(out, rng, 12 if big else 5)
-    check_nested_and_body_frames(out, rng, 6 if big else 2)
+    # the two in-process families on the real registry run in a forked child as well: a changed library may loop in path()
+    from harness import c20_registry as R
+    res, why = R.forked(_registry_families, rng.randrange(2**32), 12 if big else 5, 6 if big else 2, time_limit=300.0 if big else 60.0)
+    if res is None:
+        out.fail("registry-families-exceed-bound", "conversions interleaved with create_station / as_frame did not finish within the time / memory bound", {}, observed=why)
+    else:
+        out.failures.extend(res["failures"])
+        out.cases += res["cases"]
+        out.keys |= set(res["keys"])
+        for k, v in res["dist"].items():
+            out.dist[k] = out.dist.get(k, 0) + v
     out.sample({"history": [(0, 1), (1, 2), (3, 2)], "checked": "all pairs: valid simple chain == BFS distance, unconnected -> ValueError"})
     return out
 
